@@ -28,6 +28,12 @@ pub fn main() -> i32 {
         println!("{} corpus files written to {}", n, args[2]);
         return 0;
     }
+    if args.len() >= 3 && args[1] == "emit-corpus-milu" {
+        let seed = std::env::var("VERIF_SEED").ok().and_then(|s| s.parse().ok()).unwrap_or(0);
+        let n = c08::emit_corpus(&args[2], 1500, seed);
+        println!("{} corpus files written to {}", n, args[2]);
+        return 0;
+    }
     let mut checks: Vec<Box<dyn SubCheck>> = vec![];
     checks.extend(c01::checks());
     checks.extend(c02::checks());
